@@ -7,7 +7,7 @@
    several segments (addresses, memory images) is decided by the correspondence run: partial. *)
 From ElfioV Require Import Bytes Mem Stream SectionData Strings Elfio Table Loader Layout Writer
      Load_proofs Data_proofs Codec_proofs Ostream_proofs Reader_proofs Layout_proofs Writer_proofs Roundtrip_proofs
-     Segment_proofs Oneseg_proofs Oneseg_writer Oneseg_members Reload_oneseg.
+     Segment_proofs Oneseg_proofs Oneseg_writer Oneseg_members Reload_oneseg ByName_proofs Save_endtoend.
 From Coq Require Import Sorted.
 Local Open Scope N_scope.
 
@@ -187,6 +187,15 @@ Theorem C05_one_segment_data_survives_reload :
            s_data s1 = Some (firstnN b (sh_size s) ++ [0])).
 Proof. exact oneseg_reload_data. Qed.
 Print Assumptions C05_one_segment_data_survives_reload.
+
+(* what the user did not touch includes the object's environment: the layout step of save() - whatever it does to
+   offsets and addresses, and whether or not it succeeds - leaves the address translation table, the compression
+   switch and the input stream of the object exactly as they were *)
+Theorem C05_layout_leaves_environment :
+  forall el el' ok, layout el = Ok (el', ok) ->
+    el_xlat el' = el_xlat el /\ el_compr el' = el_compr el /\ el_stream el' = el_stream el.
+Proof. exact layout_keeps_env. Qed.
+Print Assumptions C05_layout_leaves_environment.
 
 (* sections flagged compressed, objects with the (modelled) compression interface: what the writer stores for such
    a section is the interface's deflate of its data, and what an eager load hands out is the interface's inflate of the
